@@ -2,6 +2,7 @@
 """Regenerates Appendix B of DESIGN.md (between the GENERATED markers) from /verif/evidence/*.json (rules as
 they ran last), /verif/seeded/*/meta.json (breaking changes and which checks / rules fire on them),
 /verif/selftest/neutral/INDEX.json and /verif/known_findings.json.  Run after the checks and tools/regress.py."""
+import ast
 import glob, json, os
 
 V = os.path.dirname(os.path.dirname(os.path.abspath(__file__)))
@@ -61,7 +62,14 @@ def main():
     out += ["### B.4 Neutral refactorings (`/verif/selftest/neutral/`): all 17 checks must stay silent", ""]
     out += ["| variant | written for | files | what was refactored |", "|---|---|---|---|"]
     for name, d in sorted(idx["variants"].items()):
-        files = ", ".join("/".join(x.split("/")[-2:]) for x in (d.get("files_changed") or []))
+        fc = d.get("files_changed") or []
+        if isinstance(fc, str):
+            # the index of the corrected twins stores the repr of the list
+            try:
+                fc = ast.literal_eval(fc)
+            except (ValueError, SyntaxError):
+                fc = [fc]
+        files = ", ".join("/".join(x.split("/")[-2:]) for x in fc)
         out.append(f"| {name} | {d.get('written_for')} | {esc(files)} | {short(d.get('what_was_refactored') or '', 240)} |")
     out += ["", END, ""]
     p = os.path.join(V, "DESIGN.md")
